@@ -300,6 +300,27 @@ theorem failure_cache_cas_cad_loops {H : Hashes} (hH : HashOk H) (init maxT now 
       | none => none) :=
   ⟨failRecord_spec hH init maxT now k fuel inv, failReset_spec hH k fuel inv, failLookup_spec hH now k inv⟩
 
+/-- **FailureCache, zone states and bulk resets.** `RecordZone` / `ResetZone` are
+the same loops under the zone's table key (`failure_cache_cas_cad_loops` holds
+for every key).  `ResetMatching` (the exact question, then every ancestor
+zone) and `PurgeQuestion` (sweep, then `CompareAndDelete` of every match)
+remove exactly the listed keys, keep every other state, and report the number
+of states that were stored; `Lookup` answers with the exact state while it is
+active and otherwise with the closest active ancestor-zone state. -/
+theorem failure_cache_bulk_resets_and_lookup {H : Hashes} (hH : HashOk H) (ks : List Nat) (hnd : ks.Nodup)
+    (now qk : Nat) (zs : List Nat) {c : Cache (Nat × Nat)} (inv : SegInv H c.data) :
+    (SegInv H (c.failResetAll H ks).1.data ∧
+      (∀ k', sabs H (c.failResetAll H ks).1.data k' = if k' ∈ ks then none else sabs H c.data k') ∧
+      (c.failResetAll H ks).2 = (ks.filter (fun k => (sabs H c.data k).isSome)).length) ∧
+    c.failLookupZ H now qk zs =
+      (let act := fun k => match sabs H c.data k with
+        | some e => if now < e.2 then some e else none
+        | none => none
+       match act qk with
+       | some e => some e
+       | none => zs.findSome? act) :=
+  ⟨failResetAll_spec hH ks inv hnd, failLookupZ_spec hH now qk zs inv⟩
+
 /-- **Cache histories.** Starting from `cache.New(size)`, after any sequence
 of Add / Remove / CompareAndSwap / CompareAndDelete executed one at a time:
 the structure invariant holds, the length never exceeds the configured size,
@@ -610,6 +631,20 @@ example : ∃ c : Cache (Nat × Nat), SegInv realHashes c.data ∧ sabs realHash
   rw [(failure_cache_cas_cad_loops realHashes_ok 2 16 2 7 0
     (c := ⟨(SegMap.new 4 0).set realHashes 7 (1, 2), 4⟩) s1).1.2.1, h7]
   decide
+
+-- one stored state under key 7: a bulk reset of [7, 8] deletes one state and leaves key 7 empty
+example : ∃ c : Cache (Nat × Nat), SegInv realHashes c.data ∧ (c.failResetAll realHashes [7, 8]).2 = 1 := by
+  obtain ⟨_, ⟨s1, s2, _⟩, _⟩ :=
+    segmap_refines realHashes_ok (segmap_new_spec (V := Nat × Nat) realHashes 4 0).1 7 ((1, 2) : Nat × Nat)
+  obtain ⟨_, hnone, _⟩ := segmap_new_spec (V := Nat × Nat) realHashes 4 0
+  refine ⟨⟨(SegMap.new 4 0).set realHashes 7 (1, 2), 4⟩, s1, ?_⟩
+  rw [(failure_cache_bulk_resets_and_lookup realHashes_ok [7, 8] (by decide) 0 0 []
+    (c := ⟨(SegMap.new 4 0).set realHashes 7 (1, 2), 4⟩) s1).1.2.2]
+  have h7 : sabs realHashes ((SegMap.new 4 0 : SegMap (Nat × Nat)).set realHashes 7 (1, 2)) 7 = some (1, 2) := by
+    rw [s2 7, if_pos rfl]
+  have h8 : sabs realHashes ((SegMap.new 4 0 : SegMap (Nat × Nat)).set realHashes 7 (1, 2)) 8 = none := by
+    rw [s2 8, if_neg (by decide), hnone 8]
+  simp [List.filter_cons, h7, h8]
 
 example : CReach 2 ⟨2, 0⟩ ⟨2, 0⟩ ∧ CReach 2 ⟨2, 0⟩ ⟨3, 1⟩ :=
   ⟨CReach.refl _, CReach.step (CReach.refl _) (CStep.insert ⟨2, 0⟩ true)⟩
